@@ -113,12 +113,14 @@ FUTURE = 'to="2100-01-01 00:00:00"'
 # ------------------------------------------------------------------------------------------------
 # AST documents
 
-WORDS = ["foo", "bar();", "x = 1", "あいう", "é", "😀", "if (a) {", "}", "return", "// c", "a<b", "q", "み¿ÿ", "タグ\ufeff", "🙿"]
+WORDS = ["\u0130stanbul", "273 \u212a", "C:\\", "foo", "bar();", "x = 1", "あいう", "é", "😀", "if (a) {", "}", "return", "// c", "a<b", "q", "み¿ÿ", "タグ\ufeff", "🙿"]
 
 # characters whose UTF-8 encodings sit on the boundaries of the byte classes (continuation bytes 0x80 and
 # 0xBF, first / last code point of every encoded length)
 BOUNDARY_CHARS = ["\u0080", "\u00bf", "\u00c0", "\u00ff", "\u07ff", "\u0800", "\u0fff", "\u1000", "\u307f", "\u30bf", "\ud7ff",
-                  "\ue000", "\ufeff", "\uffff", "\U00010000", "\U0001f63f", "\U0003ffff", "\U00040000", "\U0010ffff", "\x7f", "\x00"]
+                  "\ue000", "\ufeff", "\uffff", "\U00010000", "\U0001f63f", "\U0003ffff", "\U00040000", "\U0010ffff", "\x7f", "\x00",
+                  # characters whose lower- / upper-case form has another UTF-8 length
+                  "\u0130", "\u212a", "\u212b", "\u1e9e", "\u023a", "\u00df", "\u0149"]
 
 
 class DocGen:
